@@ -8,23 +8,26 @@ import vseam
 PID = "C15"
 MANIFEST = dict(
         spec="RefCount.tla (+MC_RefCount, Gen_RefCount, Trace_RefCount)",
-        text="TLC checks exhaustively (8 object kinds, 3 handles, 3 objects, an array-of-references copy of all handles, "
-             "plain-pointer and deferred references, counter limit scaled to 6 and reached both by real handles and by writing "
-             "the counter) that the design 'raise the new referent, then lower the old one, destroy when lower answers 0' keeps "
-             "counter = number of references, destroys exactly when the last reference goes, never resurrects, and that a "
-             "refused raise changes nothing and never wraps.  Every transition of the model is replayed into the real code: "
-             "mpt_refcount_raise/lower and refcount::raise/lower at 0/1/2/MAX-1/MAX, shared buffers (mpt_array_clone, array "
-             "type traits, buffer vptr), a harness metatype counting with mpt_refcount_*, reply contexts (metatype references "
-             "and deferred handles), plot rawdata, geninfo and buffer metatypes (not shareable, clone), each through generic "
-             "conversion (TypeMetaRef), reference type traits (also as array-of-references copy via mpt_buffer_set) and C++ "
-             "reference<T> (copy, assign, move, detach, set_instance, destructor), with destruction observed as the release of "
-             "the object's block at the malloc seam; seeded histories with 4 handles and 8 objects are recorded from the real "
-             "code and validated by TLC against the same specification.",
+        text="TLC checks exhaustively (7 capability classes of object kinds, 3 handles, 3 objects, an array-of-references copy "
+             "of all handles, plain-pointer and deferred references, counter limit scaled to 4..5 and reached both by real "
+             "handles and by writing the counter) that the design 'raise the new referent, then lower the old one, destroy when "
+             "lower answers 0' keeps counter = number of references, destroys exactly when the last reference goes, never "
+             "resurrects, and that a refused raise changes nothing and never wraps.  Every transition of the model is replayed "
+             "into the real code for 12 object kinds: mpt_refcount_raise/lower and refcount::raise/lower at 0/1/2/MAX-1/MAX, "
+             "shared buffers (mpt_array_clone, array type traits, buffer vptr, detach/mpt_array_reserve), a harness metatype "
+             "counting with mpt_refcount_*, reply contexts (metatype references and deferred handles), plot rawdata with nested "
+             "stage buffers, stream inputs on a socket pair, local/remote outputs, file iterators, geninfo and buffer metatypes "
+             "(not shareable, clone) -- each through generic conversion (mpt_data_converter / mpt_value_convert to TypeMetaRef), "
+             "reference type traits (also as array-of-references copy via mpt_buffer_set) and C++ reference<T> (copy, assign, "
+             "move, detach, set_instance, destructor), with destruction observed as the release of the object's block at the "
+             "malloc seam and leak-freedom when nothing is referred to any more; seeded histories with 4 handles and 8 objects "
+             "are recorded from the real code and validated by TLC against the same specification.",
         note="Trusted: TLC, drv/refcount.c + refcount_cxx.cpp + seam.h (projection only).  'Destroyed' means the object's "
-             "allocation was released through the malloc seam (all of mptcore and mptplot/rawdata+values are compiled through it); "
-             "use after release is observed by ASan, not proved.  Stream inputs (mptio) need a socket/file descriptor and are "
-             "not driven; counters of library objects are observed through their public effect (BufferShared, destruction), "
-             "exact values only for the harness metatype and reference<T>::type.",
+             "allocation was released through the malloc seam (all of mptcore, mptio and mptplot are compiled through it); "
+             "use after release is observed by ASan, not proved.  Counters of library objects are observed through their public "
+             "effect (BufferShared, destruction, nothing left allocated), exact values only for the harness metatype and "
+             "reference<T>::type.  Not driven: mpt++ classes allocating with new (metatype::generic, io::buffer/stream), "
+             "mmap-backed buffers, loader proxies.",
         technique="TLA+ spec + TLC exhaustive check; TLC-generated behaviours replayed into the C and C++ code; TLC trace validation of recorded runs",
         design="5/C15")
 CFG = {
